@@ -58,9 +58,7 @@ def run(tier):
         lines.append('op=sweep12 id=u32p%x kind=u32 lo=%d hi=%d step=%d' % (lo, lo + rng.randrange(step), lo + 0x10000, step))
     for lo in (0x110000, 0x200000, 0x7FFFFF00, 0x80000000, 0xFFFFFF00):
         lines.append('op=sweep12 id=u32h%x kind=u32 lo=%d hi=%d step=1' % (lo, lo, lo + 0x100))
-    ev, err, rc, bad = core.run_driver_parallel(exe_u, lines, 'ubsan', chunk=8)
-    if rc or bad or len(ev) != len(lines):
-        ck.harness_error('sweep12 failed rc=%s bad=%s %s' % (rc, bad, err[-3000:]))
+    ev = U.run_stage(ck, exe_u, lines, 'ubsan', 'sweep12')
     cases = ill = calls = 0
     for e in ev:
         cases += e['cases']
@@ -98,9 +96,7 @@ def run(tier):
         i = 'x%d' % k
         lines.append('op=refseg id=%s enc=%s src=%s' % (i, enc, b.hex()))
         meta[i] = (enc, b)
-    ev, err, rc, bad = core.run_driver_parallel(exe_u, lines, 'ubsan')
-    if rc or bad or len(ev) != len(lines):
-        ck.harness_error('refseg failed rc=%s bad=%s %s' % (rc, bad, err[-2000:]))
+    ev = U.run_stage(ck, exe_u, lines, 'ubsan', 'refseg')
     agree = 0
     for e in ev:
         enc, b = meta[e['id']]
@@ -140,6 +136,14 @@ def run(tier):
                     fr = U.from_units(rng.choice(frags32), f)
                 parts.append(fr)
         src = b''.join(parts)
+        if rng.random() < 0.25:
+            # ill-formed fragment as the very last thing of the input (nothing behind it may be read)
+            if U.WIDTH[f] == 1:
+                src += rng.choice(frags8)
+            elif U.WIDTH[f] == 2:
+                src += U.from_units(rng.choice(frags16 + [[0xDBFF], [0xDB00], [0xD800]]), f)
+            else:
+                src += U.from_units(rng.choice(frags32), f)
         if rng.random() < 0.15 and len(src) > U.WIDTH[f]:
             cut = rng.randrange(1, len(src) // U.WIDTH[f]) * U.WIDTH[f]
             src = src[:cut]     # truncated tail
@@ -160,9 +164,12 @@ def run(tier):
         pre = ''
         lines.append('op=transcode id=%s src=%s from=%s to=%s path=%s policy=%s mark=%s' % (i, src.hex(), f, t, path, pol, mk))
         meta[i] = (src, f, t, path, pol, mark_cp, mark_kind, lines[-1])
-    ev, err, rc, bad = core.run_driver_parallel(exe_a, lines, 'asan')
-    if rc or bad or len(ev) != len(lines):
-        ck.harness_error('embedded-fragment run failed rc=%s bad=%s %s' % (rc, bad, err[-3000:]))
+    by_id, crashes = core.run_cases(exe_a, lines, 'asan')
+    for ln, key, err, rc in crashes:
+        ck.violation('sequence/crash/%s' % key, {'driver': 'drv_utf', 'variant': 'asan', 'case': ln[:100000], 'stderr': err[-2000:]}, 'transcoding an ill-formed sequence died: ' + key)
+    ev = list(by_id.values())
+    if len(ev) + len(crashes) != len(lines):
+        ck.harness_error('embedded-fragment run lost cases: %d of %d' % (len(ev) + len(crashes), len(lines)))
     for e in ev:
         src, f, t, path, pol, mark_cp, mark_kind, line = meta[e['id']]
         out = bytes.fromhex(e['out'])
